@@ -197,7 +197,7 @@ def enumerate_paths(stmts: List[ast.stmt], limit: int = 20000) -> List[SymPath]:
             finish(live, "break", st)
             return []
         if isinstance(st, (ast.With, ast.AsyncWith)):
-            return run(st.body, [p.extend(stmt=st) for p in live])
+            return run(st.body, list(live))
         if isinstance(st, ast.Try):
             body_paths = run(st.body + st.orelse, list(live))
             outs = list(body_paths)
@@ -219,3 +219,55 @@ def enumerate_paths(stmts: List[ast.stmt], limit: int = 20000) -> List[SymPath]:
         p.exit = "fall"
         done.append(p)
     return done
+
+
+class SymEnv:
+    """forward substitution of simple assignments along one path (names only)"""
+
+    def __init__(self, params=()):
+        self.env = {}
+        self.params = set(params)
+
+    def sym(self, e) -> str:
+        if e is None:
+            return "None"
+        if isinstance(e, ast.Name):
+            return self.env.get(e.id, e.id)
+        if isinstance(e, ast.Constant):
+            return repr(e.value)
+        if isinstance(e, ast.BinOp):
+            l, r = self.sym(e.left), self.sym(e.right)
+            if isinstance(e.op, (ast.Add, ast.Mult)) and l > r:
+                l, r = r, l
+            return f"({l} {type(e.op).__name__} {r})"
+        if isinstance(e, ast.UnaryOp):
+            return f"({type(e.op).__name__} {self.sym(e.operand)})"
+        if isinstance(e, ast.Attribute):
+            return f"{self.sym(e.value)}.{e.attr}"
+        if isinstance(e, ast.Call):
+            args = ", ".join([self.sym(a) for a in e.args] + [f"{k.arg}={self.sym(k.value)}" for k in e.keywords])
+            return f"{self.sym(e.func)}({args})"
+        if isinstance(e, ast.Subscript):
+            return f"{self.sym(e.value)}[{self.sym(e.slice)}]"
+        if isinstance(e, ast.Tuple):
+            return "(" + ", ".join(self.sym(x) for x in e.elts) + ")"
+        if isinstance(e, ast.Compare):
+            return "(" + self.sym(e.left) + "".join(
+                f" {type(o).__name__} {self.sym(c)}" for o, c in zip(e.ops, e.comparators)) + ")"
+        if isinstance(e, ast.IfExp):
+            return f"({self.sym(e.body)} if {self.sym(e.test)} else {self.sym(e.orelse)})"
+        if isinstance(e, ast.BoolOp):
+            return "(" + f" {type(e.op).__name__} ".join(self.sym(v) for v in e.values) + ")"
+        return norm(e)
+
+    def assign(self, st):
+        if isinstance(st, ast.Assign) and len(st.targets) == 1 and isinstance(st.targets[0], ast.Name):
+            self.env[st.targets[0].id] = self.sym(st.value)
+        elif isinstance(st, ast.AugAssign) and isinstance(st.target, ast.Name):
+            cur = self.env.get(st.target.id, st.target.id)
+            self.env[st.target.id] = f"({cur} {type(st.op).__name__} {self.sym(st.value)})"
+        elif isinstance(st, ast.Assign):
+            for t in st.targets:
+                for n in ast.walk(t):
+                    if isinstance(n, ast.Name) and isinstance(n.ctx, ast.Store):
+                        self.env[n.id] = f"?{n.id}@{st.lineno}"
